@@ -155,6 +155,46 @@ def s_split(s, sep=None, maxsplit=-1):
     return out
 
 
+LINE_BOUNDARIES = '\n\r\x0b\x0c\x1c\x1d\x1e\x85\u2028\u2029'
+_PRED_RANGES = {}
+
+
+def _pred_ranges(name):
+    """code point ranges on which the str predicate `name` holds for a single character (from the interpreter)"""
+    rs = _PRED_RANGES.get(name)
+    if rs is None:
+        rs = _PRED_RANGES[name] = R._ranges([c for c in range(R.MAXCP + 1) if getattr(chr(c), name)()])
+    return rs
+
+
+def s_charpred(name):
+    def model(s):
+        s = raw(s)
+        if not s:
+            return False
+        return wrap(cond.And(*[R.ch_in(c, _pred_ranges(name)) for c in s]))
+    return model
+
+
+def s_splitlines(s, keepends=False):
+    s = raw(s)
+    out = []
+    i = start = 0
+    n = len(s)
+    while i < n:
+        if R.ST.decide(R.ch_among(s[i], LINE_BOUNDARIES)):
+            j = i + 1
+            if j < n and R.ST.decide(cond.And(R.ch_eq(s[i], '\r'), R.ch_eq(s[j], '\n'))):
+                j += 1
+            out.append(s[start:j] if keepends else s[start:i])
+            i = start = j
+        else:
+            i += 1
+    if start < n:
+        out.append(s[start:])
+    return out
+
+
 def s_replace(s, old, new, count=-1):
     if count != -1:
         raise Unsupported('str.replace with count')
@@ -165,6 +205,9 @@ def s_replace(s, old, new, count=-1):
 
 STR_MODELS = {
     'replace': s_replace,
+    'splitlines': s_splitlines,
+    'isalpha': s_charpred('isalpha'), 'isdigit': s_charpred('isdigit'), 'isalnum': s_charpred('isalnum'),
+    'isupper': lambda s: (_ for _ in ()).throw(Unsupported('str.isupper on symbolic data')),
     'startswith': s_startswith,
     'endswith': s_endswith,
     'isspace': s_isspace,
